@@ -182,4 +182,25 @@ def r16_2(ctx):
     ctx.floor('R16.2', n, 5)
 
 
-RULES = [('R16.1', r16_1), ('R16.2', r16_2), ('R16.3', r16_3)]
+def r16_4(ctx):
+    """No hidden history in module state either: a module-level table that is a one-shot iterator (generator expression, map,
+    filter, zip...) is used up by the first observation that looks at it; the next observation of an unchanged file then sees
+    an empty table and gives a different answer (save() stops refusing real-time messages, a lookup starts to fail...)."""
+    bad = astq.one_shot_globals(ctx.p)
+    for m, name, st in bad:
+        ctx.fail('R16.4', f'{m.name}.{name}', f'{m.relpath}:{st.lineno} {name}',
+                 f'{name} is bound to a one-shot iterator ({unparse(st.value)[:70]}): whatever reads it first uses it up, later observations '
+                 'of an unchanged file differ', construct=f'{m.relpath}::{name}::one-shot-global')
+    ctx.ok('R16.4', 'module-level tables are re-iterable', 'mido: module globals')
+    ctx.call_sites += sum(len(m.assigns) for m in ctx.p.modules.values())
+
+
+def r16_5(ctx):
+    """What save() writes for a text event is a function of the text and the file's charset alone: the codec helpers are exactly
+    .encode/.decode(charset in force) with no memo between calls (bodies shared with C17 R17.4) - a cache keyed by the text alone
+    makes the bytes written depend on which file was saved first."""
+    from . import c17
+    ctx.borrow(c17.r17_4, 'R16.5')
+
+
+RULES = [('R16.1', r16_1), ('R16.2', r16_2), ('R16.3', r16_3), ('R16.4', r16_4), ('R16.5', r16_5)]
